@@ -55,8 +55,36 @@ AclScns3 == {[fam |-> "acl", scn |-> [acl |-> a]] : a \in {x \in AclsOver(AclPre
 PolOpts3 == {<<x, y, z>> : x \in OptSetQuick, y \in OptSetQuick, z \in OptSetQuick}
 PolScns3 == {[fam |-> "pol", scn |-> [acl |-> a, seq |-> s, opts |-> o]] : a \in PolAclsQuick, s \in PolSeqs, o \in PolOpts3}
 
-DirectedQuick == ProbeScns(GenProbePredsQuick) \cup AclScns(1) \cup PolScnsQuick
-DirectedThorough == ProbeScns(GenProbePredsThorough) \cup AclScns(2) \cup PolScns \cup AclScns3 \cup PolScns3
+\* policy inheritance: a top definition extending one or two named definitions (the second may itself extend
+\* the first), each with some attributes set; ISD-AS filters on source / destination
+Def(acl, seq, opts, local, remote, ext) == [acl |-> acl, seq |-> seq, opts |-> opts, local |-> local, remote |-> remote, ext |-> ext]
+AllowS == <<[allow |-> TRUE, p |-> P(1, WildAS, "dec", 0, 0, 0)], [allow |-> FALSE, p |-> AnyHop]>>
+DenyB1 == <<[allow |-> FALSE, p |-> P(2, ASb, "hexl", 2, 1, 0)], [allow |-> TRUE, p |-> AnyHop]>>
+SeqTwo == Cat(Hop(AnyHop), Hop(AnyHop))
+SeqVia == Cat(Hop(AnyHop), Cat([t |-> "plus", a |-> Hop(P(0, ASb, "hexl", 1, 0, 0))], Hop(AnyHop)))
+Loc1 == <<[isd |-> 1, as |-> ASa]>>
+Rem1 == <<[isd |-> 2, as |-> WildAS, rej |-> 1], [isd |-> 0, as |-> ASa, rej |-> 0]>>
+Rem2 == <<[isd |-> 0, as |-> ASb, rej |-> 0]>>
+Opt1 == <<[w |-> 1, acl |-> DenyA, seq |-> NoSeq], [w |-> 1, acl |-> <<>>, seq |-> SeqTwo]>>
+BaseDefs == {Def(a, s, <<>>, l, r, <<>>) : a \in {<<>>, AllowS, DenyB1}, s \in {NoSeq, SeqTwo, SeqVia},
+                                           l \in {<<>>, Loc1}, r \in {<<>>, Rem1}}
+PoolA == {d \in BaseDefs : (Len(d.acl) = 0 \/ d.seq.t = "none") /\ (Len(d.local) = 0 \/ Len(d.remote) = 0)}
+ExtScn(top, p1, p2, nested, ext) ==
+    [fam |-> "ext", scn |-> [top |-> [top EXCEPT !.ext = ext],
+                             pool |-> <<p1, IF nested THEN [p2 EXCEPT !.ext = <<1>>] ELSE p2>>]]
+ExtTops == {Def(<<>>, NoSeq, <<>>, <<>>, <<>>, <<>>), Def(DenyB1, NoSeq, <<>>, <<>>, <<>>, <<>>),
+            Def(<<>>, SeqTwo, <<>>, <<>>, Rem2, <<>>), Def(<<>>, NoSeq, Opt1, <<>>, <<>>, <<>>)}
+ExtP1 == {Def(AllowS, NoSeq, <<>>, <<>>, <<>>, <<>>), Def(<<>>, SeqVia, <<>>, Loc1, <<>>, <<>>),
+          Def(DenyB1, SeqTwo, <<>>, <<>>, Rem1, <<>>)}
+ExtP2 == {Def(DenyB1, NoSeq, Opt1, <<>>, <<>>, <<>>), Def(<<>>, SeqTwo, <<>>, <<>>, Rem1, <<>>),
+          Def(AllowS, SeqVia, <<>>, Loc1, <<>>, <<>>), Def(<<>>, NoSeq, <<>>, <<>>, <<>>, <<>>)}
+ExtScnsQuick == {ExtScn(t, p1, p2, n, e) : t \in ExtTops, p1 \in ExtP1, p2 \in ExtP2, n \in BOOLEAN,
+                                          e \in {<<1>>, <<2>>, <<1, 2>>, <<2, 1>>}}
+ExtScnsThorough == ExtScnsQuick \cup
+                   {ExtScn(t, p1, p2, n, e) : t \in ExtTops, p1 \in PoolA, p2 \in ExtP2, n \in BOOLEAN, e \in {<<1, 2>>, <<2, 1>>}}
+
+DirectedQuick == ProbeScns(GenProbePredsQuick) \cup AclScns(1) \cup PolScnsQuick \cup ExtScnsQuick
+DirectedThorough == ProbeScns(GenProbePredsThorough) \cup AclScns(2) \cup PolScns \cup AclScns3 \cup PolScns3 \cup ExtScnsThorough
 
 \* path sets for the driver, printed once at start-up by the Gen configs
 PathSets(u) == /\ PrintT(<<"PATHS", "pred", ToJson(SetToSeq(GenProbePaths))>>)
